@@ -10,14 +10,14 @@ from ..ctx import Raised
 
 PROP = 'C13'
 C_TOL = 100.0
-RULE = ('cases = q = x/y, scalar/y and elementwise_divide(x,y,eps,...) for TT tensors of order 2..5, mode sizes 1..10 (dense size <= 2e4), ranks 1..4, divisors y = 1 + z*z with '
+RULE = ('cases = sequences of x/y and scalar/y by fresh same-shape divisors that are dropped in between; q = x/y, scalar/y and elementwise_divide(x,y,eps,...) for TT tensors of order 2..5, mode sizes 1..10 (dense size <= 2e4), ranks 1..4, divisors y = 1 + z*z with '
         'every entry certified in [1,2] (a few larger cases: [1,7.25]) on the dense array, optional preconditioner c, optional starting tensor, eps log-uniform in [1e-10,1e-3] for elementwise_divide, '
         'a few full-rank 10x10x10x10 quotients (divisor in [1,10], eps 1e-12/1e-11, optional nswp=40), k internal seeds per structure; plus x/scalar (power-of-two scalars, int-valued cores: bit-exact). Oracle: shape; ||D(q)*D(y) - D(x)|| <= 100*tol*||D(x)|| with tol = 1e-12 '
         '(operators, fixed setting) or eps (elementwise_divide). distinct = (form, structure, eps decade, options, seed index); non-trivial = non-zero numerator.')
 ASSUMPTIONS = ['"within the solver tolerance" is fixed a priori as 100*tol (the AMEn residual is controlled per local problem; the constant absorbs sqrt(d) and the damping factor)',
                'divisor entries are certified in [1,2] by the harness; nothing is claimed for divisors with entries near zero']
 REQUIRED_REACH = ['_division:amen_divide', '_tt_base:TT.__truediv__', '_tt_base:TT.__rtruediv__', '_extras:elementwise_divide']
-REQUIRED_COUNTS = {'form:x/y': 1, 'form:s/y': 1, 'form:elementwise_divide': 1, 'form:x/scalar': 1, 'opt:preconditioner-c': 1, 'divisor:rank-one': 5, 'opt:starting_tensor': 1, 'opt:starting_tensor(near-solution)': 5, 'executions': 100}
+REQUIRED_COUNTS = {'sequence_divisions': 20, 'form:x/y': 1, 'form:s/y': 1, 'form:elementwise_divide': 1, 'form:x/scalar': 1, 'opt:preconditioner-c': 1, 'divisor:rank-one': 5, 'opt:starting_tensor': 1, 'opt:starting_tensor(near-solution)': 5, 'executions': 100}
 LINE_FUNCS = ['amen_divide', 'TT.__truediv__', 'TT.__rtruediv__']
 CASE_TIMEOUT = {'quick': 300, 'thorough': 600}
 MAX_TIMEOUT_FRACTION = 0.0
@@ -89,7 +89,53 @@ def cases(tier, seed):
         d = rng.randint(1, 4)
         cs.append({'gen': 'scalar', 'N': [rng.choice((1, 2, 3, 4)) for _ in range(d)], 'R': gens.rank_profile(rng, d, 'rand', 3), 'scalar': rng.choice([2, 0.5, -4.0, 0.25, 8]),
                    'kind': ['py', 't0', 't1'][i % 3], 'dtype': ['f64', 'f32', 'c128'][i % 3], 'ttm': i % 5 == 4, 'vseed': rng.randrange(2 ** 40)})
+    # sequences: several divisions in a row by FRESH divisors of one shape, each divisor dropped before the next is built (what a loop over cases does); every quotient
+    # must belong to its own divisor - nothing keyed by a dead object's identity, shape or dtype may be reused
+    for i in range(12 if not T else 100):
+        d = rng.choice([2, 3])
+        cs.append({'gen': 'seq', 'N': [rng.randint(3, 6) for _ in range(d)], 'Rz': gens.rank_profile(rng, d, 'rand', 2), 'n': 10, 'forms': ['s/y', 'mixed'][i % 2], 'vseed': rng.randrange(2 ** 40)})
     return cs
+
+
+def run_seq(case, ctx, g):
+    import gc
+    import torchtt
+    dt = torch.float64
+    N = case['N']
+    d = len(N)
+    for j in range(case['n']):
+        z = gens.make_tt(N, case['Rz'], dt, 'gauss', g)
+        zmax = float(dn.D(z).abs().max())
+        y = ctx.call('TT*TT+1', lambda a: (a * (1.0 / max(zmax, 1e-300))) * (a * (1.0 / max(zmax, 1e-300))) + 1.0, z)
+        del z
+        dy = dn.D(y)
+        sc = [1.0, 2.0, -3.5, 1.0, 0.5, 2.0, 1.0, -1.0, 4.0, 1.0][j % 10]
+        form = 's/y' if case['forms'] == 's/y' or j % 2 == 0 else 'x/y'
+        if form == 's/y':
+            num = torch.full(N, sc, dtype=dt)
+            q = ctx.lib('scalar/TT', lambda b: sc / b, y)
+        else:
+            x = gens.make_tt(N, [1] + [2] * (d - 1) + [1], dt, 'gauss', g)
+            num = dn.D(x)
+            q = ctx.lib('TT/TT', lambda a, b: a / b, x, y)
+            del x
+        ctx.count('sequence_divisions')
+        key = 'divide/sequence/%s' % form
+        what = '%s, division %d of a sequence by fresh divisors of shape %s (earlier divisors dropped)' % (form, j + 1, N)
+        if isinstance(q, Raised):
+            ctx.viol(key + '/clause=raises:%s@%s' % (q.type, q.func), '%s raised %r' % (what, q))
+            return
+        if not isinstance(q, torchtt.TT) or [int(n) for n in q.N] != list(N):
+            ctx.viol(key + '/clause=shape', '%s: result %s' % (what, hooks.signature(q)))
+            return
+        err = dn.fro(dn.D(q) * dy - num)
+        ratio = err / (1e-12 * dn.fro(num))
+        ctx.metric('residual_over_tol/sequence', ratio)
+        if not ratio <= C_TOL:
+            ctx.viol(key + '/clause=residual>100tol', '%s: ||q*y-x||/||x|| = %.3e = %.3g * tol' % (what, err / dn.fro(num), ratio))
+        ctx.nontrivial(('seq', form, tuple(N), tuple(case['Rz']), j))
+        del y, q, dy
+        gc.collect()
 
 
 def run_case(case, ctx):
